@@ -16,30 +16,32 @@ def Transcript.clientMsgs (t : Transcript) : List Nat := t.client.filterMap Ev.m
 def Transcript.serverMsgs (t : Transcript) : List Nat := t.server.filterMap SEv.got?
 def Srv.ops : Srv → List SOp | .running ops => ops | _ => []
 
-theorem Wrap.terminal_msg {w : Wrap.State} {e : Ev} (h : Wrap.terminal w = some e) : e.msg? = none := by
-  unfold Wrap.terminal at h
-  cases hc : w.closed with
-  | some f => simp [hc] at h; subst h; cases f <;> rfl
+theorem GrpcRef.terminal_msg {g : GrpcRef.State} {e : Ev} (h : GrpcRef.terminal g = some e) : e.msg? = none := by
+  unfold GrpcRef.terminal at h
+  cases hc : g.trlFrame with
+  | some f => obtain ⟨md, c, m⟩ := f; simp [hc] at h; subst h; rfl
   | none =>
-    cases ha : w.ctxErr with
+    cases ha : g.rst with
     | some a => simp [hc, ha] at h; subst h; rfl
     | none => simp [hc, ha] at h
 
-theorem go_msgs (c : Cfg) (fin : Fin) (w : Wrap.State) (cc : Bool) (srv : Srv) (cs : List COp) :
-    (go (Wrap.impl c) fin w cc srv cs).clientMsgs <+: srv.ops.filterMap SOp.send? ∧
-    (go (Wrap.impl c) fin w cc srv cs).serverMsgs <+: cs.filterMap COp.send? := by
-  fun_induction go (Wrap.impl c) fin w cc srv cs
+/-- Proved on the reference run (where a message is its bytes); `C13_transcript_eq` carries it over to
+the wrapper, whose receiver reads the payload out of message objects. -/
+theorem go_msgs (fin : Fin) (reuse : Bool) (w : GrpcRef.State) (cc : Bool) (srv : Srv) (cs : List COp) :
+    (go GrpcRef.impl fin reuse w cc srv cs).clientMsgs <+: srv.ops.filterMap SOp.send? ∧
+    (go GrpcRef.impl fin reuse w cc srv cs).serverMsgs <+: cs.filterMap COp.send? := by
+  fun_induction go GrpcRef.impl fin reuse w cc srv cs
   case case1 s cc md ss cs ih =>
-    cases hb : ((Wrap.impl c).setHeader s md).2 <;>
+    cases hb : (GrpcRef.impl.setHeader s md).2 <;>
       simpa [sevIf, hb, sev, Transcript.clientMsgs, Transcript.serverMsgs, Srv.ops, List.filterMap_cons, SOp.send?, SEv.got?] using ih
   case case2 s cc md ss cs ih =>
-    cases hb : ((Wrap.impl c).sendHeader s md).2 <;>
+    cases hb : (GrpcRef.impl.sendHeader s md).2 <;>
       simpa [sevIf, hb, sev, Transcript.clientMsgs, Transcript.serverMsgs, Srv.ops, List.filterMap_cons, SOp.send?, SEv.got?] using ih
   case case26 s cc cs e he ih =>
-    have := Wrap.terminal_msg he
+    have := GrpcRef.terminal_msg he
     simp_all [Transcript.clientMsgs, Transcript.serverMsgs, Srv.ops, cev, List.filterMap_cons, COp.send?]
   case case34 s cc cs e he ih =>
-    have := Wrap.terminal_msg he
+    have := GrpcRef.terminal_msg he
     simp_all [Transcript.clientMsgs, Transcript.serverMsgs, Srv.ops, cev, List.filterMap_cons, COp.send?]
   case case16 s tl a cs ih =>
     obtain ⟨h1, h2⟩ := ih
@@ -54,5 +56,5 @@ theorem go_msgs (c : Cfg) (fin : Fin) (w : Wrap.State) (cc : Bool) (srv : Srv) (
     simp only [cev, sev, List.filterMap_cons, Ev.msg?, SEv.got?, COp.send?, h1]
     exact ⟨List.nil_prefix, h2⟩
   all_goals simp_all [Transcript.clientMsgs, Transcript.serverMsgs, Srv.ops, cev, sev, stuckT, leftT, endT,
-    Ev.msg?, SEv.got?, SOp.send?, COp.send?, List.filterMap_cons]
+    Ev.msg?, SEv.got?, SOp.send?, COp.send?, List.filterMap_cons, GrpcRef.impl]
 end ScVerif.C13
